@@ -524,6 +524,8 @@ def c15b_check(scn):
     tail = sb[len(sb) - len(sa):] if len(sa) <= len(sb) else None
     if tail is None or [x[0] for x in sa] != [x[0] for x in tail]:
         return {"clause": "window", "observed": [x[0][0] for x in sa][:5], "expected": "a suffix of the untrimmed candles"}
+    if scn.get("window_only"):   # pauses longer than the lifespan: no look-back survives, only the first clause applies
+        return None
     d = first_diff(sa, tail)
     if d:
         return {"clause": "readings-differ", "observed": d, "expected": "readings of the untrimmed run"}
@@ -554,8 +556,25 @@ def c15b_case(rng, idx, params):
         t0 = stream[0][0]
         stream = [((t0 + i * step) if i < half else (t0 + (half - 1) * step + (i - half + 1) * life),) + tuple(c[1:])
                   for i, c in enumerate(stream)]
+    beyond = (not meta_tight) and rng.random() < 0.2
+    if beyond:
+        # a feed that pauses for longer than the lifespan, several times: after each pause exactly the newest candle is retained - in
+        # the INDICATOR's own candle list as well (first clause only; the readings have lost their look-back)
+        half = n // 2
+        t0 = stream[0][0]
+        stream = [((t0 + i * step) if i < half else (t0 + (half - 1) * step + (i - half + 1) * (life + step) if (i - half) % 3 == 0 else None),) + tuple(c[1:])
+                  for i, c in enumerate(stream)]
+        last = None
+        fixed = []
+        for t in stream:
+            ts = t[0] if t[0] is not None else last + step
+            fixed.append((ts,) + tuple(t[1:]))
+            last = ts
+        stream = fixed
     spec = dict(spec, life=life)
     scn = {"spec": spec, "stream": stream, "init": 0, "chunks": [1] * n, "poll": rng.random() < 0.4}
+    if beyond:
+        scn["window_only"] = True
     bad = c15b_check(scn)
     viol = None
     if bad:
